@@ -679,7 +679,8 @@ def implying_edges(fn, pred):
             t_ = strip_refs(g.term)
             if t_[0] == "var":
                 l = t_[1]
-            elif t_[0] == "call" and g.kind == "variant":
+            elif t_[0] == "call":
+                # (the result of a lowered adaptor - `opt.map_or(false, |x| test(x))` kept in a flag - is a local with the call as its term)
                 ls = [k for k, v in low.items() if v["block"] == t_[3] and v["term"].get("callee") and t_[1] and strip_generics(v["term"]["callee"]) == t_[1]]
                 if len(ls) != 1:
                     continue
